@@ -23,6 +23,10 @@ except Exception:
 def load(prop, tier, seed):
     mod = importlib.import_module('props.' + prop.lower())
     obs = mod.build(tier, seed)
+    # head-room: CPU budgets are sized on this sandbox; the machine that runs the checks may be slower or loaded
+    factor = float(os.environ.get('VERIF_TIMEOUT_FACTOR', '3'))
+    for o in obs:
+        o.timeout = o.timeout * factor
     names = [o.name for o in obs]
     assert len(set(names)) == len(names), 'duplicate obligation names: ' + str([n for n in names if names.count(n) > 1][:5])
     return mod, {o.name: o for o in obs}
